@@ -51,6 +51,8 @@ def glit(src, depth=0):
         return ('v', '_%d' % src.anon)
     if k < 10:
         n = 1 + src.n(3)
+        if src.n(8) == 7:
+            n = 0           # foo(): a compound term without arguments, not the atom foo
         return ('f', gname(src), tuple(glit(src, depth + 1) for _ in range(n)))
     items = [glit(src, depth + 1) for _ in range(src.n(4))]
     if items and src.n(4) == 3:
@@ -331,8 +333,15 @@ class C16(Prop):
             # atoms: one object per engine, distinct across engines, yet they unify
             yp2 = impl.YP()
             for a in self.atoms_of(t)[:4]:
-                if yp.atom(a) is not yp.atom(a):
+                first = yp.atom(a)
+                if first is not yp.atom(a):
                     return FAIL('atom-not-interned', dict(detail, atom=a))
+                if case.get('style', 0) == 5:
+                    # ... however many other names the engine is asked for in between
+                    for i in range(300):
+                        yp.atom('filler%d' % i)
+                    if yp.atom(a) is not first:
+                        return FAIL('atom-not-interned', dict(detail, atom=a, after='300 other atom names'))
                 if yp.atom(a) is yp2.atom(a):
                     return FAIL('atom-shared-between-engines', dict(detail, atom=a))
                 if sum(1 for _ in impl.engine.unify(yp.atom(a), yp2.atom(a))) != 1:
